@@ -145,19 +145,47 @@ struct ThreadProg {
   int spin;
 };
 
+// a writer owns two container objects nobody else touches and runs every kind of mutating and comparing operation on them
 template <class C>
 static void writer_body(int rounds, int seedv) {
   typedef typename C::value_type E;
-  C mine;  // a distinct container object per writer
+  C mine, other;
+  long sink = 0;
   for (int r = 0; r < rounds; ++r) {
+    const int v = (seedv + r * 7) % 40;
     if constexpr (IsSet<C>::value) {
-      mine.insert(E((seedv + r * 7) % 40));
-      if (r % 3 == 2) mine.erase(E((seedv + r) % 40));
+      switch (r % 8) {
+        case 0: mine.insert(E(v)); break;
+        case 1: mine.emplace(v + 1); break;
+        case 2: mine.insert(mine.begin(), E(v + 2)); break;
+        case 3: other.insert(E(v)); other.emplace_hint(other.end(), v + 3); break;
+        case 4: sink += (mine == other) + (mine < other); break;
+        case 5: if (!mine.empty()) mine.erase(mine.begin()); break;
+        case 6: mine.erase(E((seedv + r) % 40)); sink += static_cast<long>(mine.count(E(v))); break;
+        default: mine.swap(other); if (other.size() > 6) other.clear(); break;
+      }
     } else {
-      if (static_cast<long>(mine.size()) < 12) mine.push_back(E(seedv + r));
-      else mine.pop_back();
+      const long sz = static_cast<long>(mine.size());
+      switch (r % 10) {
+        case 0: case 1: if (sz < 12) mine.push_back(E(seedv + r)); break;
+        case 2: if (sz < 12) mine.emplace(mine.begin() + sz / 2, seedv + r); break;
+        case 3: if (sz < 12) mine.insert(mine.begin() + sz / 2, E(seedv)); break;
+        case 4: if (sz < 10) mine.insert(mine.begin(), 2, E(r)); break;
+        case 5: if (sz > 0) mine.erase(mine.begin() + sz / 2); break;
+        case 6: other.assign(3, E(r)); sink += (mine == other) + (mine < other); break;
+        case 7: mine.swap(other); break;
+        case 8:
+          try {
+            sink += valof(mine.at(static_cast<typename C::size_type>(sz + (r % 2))));
+          } catch (const std::out_of_range &) {
+            --sink;
+          }
+          break;
+        default: if (sz > 8) mine.resize(3); else if (sz > 0) mine.pop_back(); break;
+      }
     }
   }
+  if (sink == 0x7fffffff) fprintf(stderr, " ");
 }
 
 template <class C>
